@@ -23,7 +23,9 @@ oracle : no Lean involved.
              reused module file in utf-8, latin-1, cp1251, koi8-r;
          (B") preprocessors: `Lexer(src, preprocessor=p)`, `Template(src, preprocessor=p)` and a file-based
              `TemplateLookup(preprocessor=p)` equal lexing / rendering `p(src)`;
-         (C) exceptions escaping `Lexer.parse` must be Mako exceptions;
+         (C) exceptions escaping `Lexer.parse` must be Mako exceptions - on every stream, and on a dedicated stream
+             of Python-bearing constructs whose code CPython's parser rejects with each exception class it can raise
+             (lone surrogates, NUL bytes, overlong integers, very deep nesting);
          (D) timing *test* of `Lexer(s).parse()` on adversarial repetition families (CPU time of a child process,
              per-point budget);
          every implementation call inside a stream runs under a wall-clock limit, so a regex gone exponential is
@@ -111,7 +113,11 @@ RULE = ("(a) all concatenations of <=k tokens from {<% %> </% ${ } % %% ## \\ LF
         "CRLF, NBSP, U+2028, astral) with well-formed directives (expression, control lines, ## comment, %% escape, "
         "backslash-newline, <%doc>, <%text>, <% %>, <%! %>, def+call) at line start / mid-line / after a "
         "continuation / at EOF / after CRLF, each with its ground-truth output; (c) token-level mutations of such "
-        "documents and random token soup; preprocessors: 10 configurations (identity, lengthening: banner / tail / "
+        "documents and random token soup; hostile Python: 8 Python-bearing constructs (expression, filter list, control "
+        "line, <% %>, <%! %>, def signature, attribute expression, call expr) x code CPython's parser rejects with "
+        "every class it raises here (lone surrogates, NUL bytes, overlong int literal, 9 kinds of nesting at 10 depths "
+        "from 60 to 60000 - the classes met are recorded in the branch histogram) through Lexer.parse and Template; "
+        "preprocessors: 10 configurations (identity, lengthening: banner / tail / "
         "tab expansion / #if rewriting, shortening, lists of several) - Lexer(src, preprocessor=p), Template(src, "
         "preprocessor=p) and a file-based TemplateLookup(preprocessor=p) with and without module_directory must equal "
         "lexing / rendering p(src): every canonical document x every configuration x every route, every generated "
@@ -127,7 +133,8 @@ ASSUMPTIONS = [
     "the newline after </%doc> and after a closing tag is ordinary text",
     "Python-syntax checks and tag-class validation done by node constructors are outside the lexer model; "
     "on such errors only prefix agreement is required",
-    "lone surrogates are never generated",
+    "lone surrogates are not generated for the correspondence streams (Lean's Char has none); the hostile-Python "
+    "oracle stream writes them into templates, as code and as text",
     "a file that starts with U+FEFF starts with the UTF-8 byte order mark, which reading a template file strips "
     "(the file routes of the preprocessor oracle take their reference from the text without it)",
     "preprocessor and construction-path oracles are differential (the same source through two routes of the "
@@ -1326,6 +1333,120 @@ def canonical_paths_oracle():
     return bad, n[0]
 
 
+# ---- hostile Python inside directives: CPython's parser rejects it with every exception class it can raise;
+#      lexing must end with a parse tree or a Mako syntax / compile exception
+NEST_DEPTHS = [60, 250, 450, 700, 1000, 2000, 3500, 6000, 12000, 60000]
+NESTINGS = [
+    ("unary", lambda d: "-" * d + "1"),
+    ("parens", lambda d: "(" * d + "1" + ")" * d),
+    ("brackets", lambda d: "[" * d + "]" * d),
+    ("lambda", lambda d: "lambda: " * d + "1"),
+    ("binop-chain", lambda d: "1" + "+1" * d),
+    ("attribute-chain", lambda d: "a" + ".b" * d),
+    ("call-chain", lambda d: "f" + "()" * d),
+    ("not-chain", lambda d: "not " * d + "x"),
+    ("conditional", lambda d: "1 if x else " * d + "0"),
+]
+CONSTRUCTS = [
+    ("expression", lambda e: "a ${" + e + "} b"),
+    ("filter-list", lambda e: "${x | " + e + "}"),
+    ("control-line", lambda e: "% if " + e + ":\nx\n% endif\n"),
+    ("block", lambda e: "<%\n    y = " + e + "\n%>"),
+    ("module-block", lambda e: "<%!\n    y = " + e + "\n%>"),
+    ("def-signature", lambda e: '<%def name="f(a=' + e + ')">d</%def>'),
+    ("attribute-expression", lambda e: '<%include file="${' + e + '}"/>'),
+    ("call-expr", lambda e: '<%call expr="' + e + '">c</%call>'),
+]
+
+
+def hostile_snippets():
+    """(name, Python expression text, class compile() rejects it with or None) - probed on the running interpreter"""
+    import ast as pyast
+    out = [("lone-surrogate", "'\ud800'"), ("lone-surrogate-name", "x\udfff"), ("nul-byte", "'a\x00b'"),
+           ("nul-outside-string", "1 +\x00 2"), ("overlong-int", "9" * 5000), ("plain-syntax-error", "1 +* 2"),
+           ("fine", "x")]
+    for name, mk in NESTINGS:
+        for d in NEST_DEPTHS:
+            out.append(("%s-%d" % (name, d), mk(d)))
+    res = []
+    for name, code in out:
+        cls = None
+        try:
+            pyast.parse(code, "<probe>", "eval")
+        except BaseException as e:          # MemoryError, RecursionError, ValueError, UnicodeEncodeError, SyntaxError
+            cls = type(e).__name__
+        res.append((name, code, cls))
+    return res
+
+
+def hostile_python_oracle():
+    """every construct x every hostile snippet: `Lexer(s).parse()` and `Template(s)` end with a result or a Mako
+    exception.  -> ([(site, case, detail)], cases, histogram of what compile() raised, histogram of outcomes)"""
+    import traceback
+    from mako import exceptions
+    from mako.lexer import Lexer
+    from mako.template import Template
+    bad = []
+    hist, outcomes = {}, {}
+    n = 0
+    for sname, code, cls in hostile_snippets():
+        hist["hostile:cpython-rejects-with:%s" % cls] = hist.get("hostile:cpython-rejects-with:%s" % cls, 0) + 1
+        for cname, mk in CONSTRUCTS:
+            if cname in ("attribute-expression", "call-expr", "def-signature") and '"' in code:
+                continue
+            src = mk(code)
+            lexer_outcome = None
+            for api, call in (("Lexer.parse", lambda: Lexer(src).parse()), ("Template", lambda: Template(src))):
+                # Template() goes on to generate, compile and execute the module - other properties' matter; it is
+                # asked only where the lexer refuses the source: it must refuse it with a Mako exception too
+                if api == "Template" and lexer_outcome != "mako":
+                    continue
+                n += 1
+
+                def run():
+                    try:
+                        call()
+                        return ("ok",)
+                    except exceptions.MakoException as e:
+                        return ("mako", type(e).__name__)
+                    except BaseException as e:
+                        if isinstance(e, (CaseTimeout, KeyboardInterrupt)):
+                            raise
+                        tb = traceback.extract_tb(sys.exc_info()[2])
+                        files = [f.filename.rsplit("/", 1)[-1] + ":" + f.name for f in tb[-6:]]
+                        return ("raw", type(e).__name__, str(e)[:100], files)
+                r, to = timed(run)
+                if to == "skipped":
+                    return bad, n, hist, outcomes
+                if to:
+                    r = ("raw", "timeout", "did not finish within %.0f s" % CASE_BUDGET, [])
+                if api == "Lexer.parse":
+                    lexer_outcome = r[0]
+                key = "hostile:%s:%s" % (api, r[0] if r[0] != "mako" else r[1])
+                outcomes[key] = outcomes.get(key, 0) + 1
+                if r[0] == "raw":
+                    site = "python-error-not-wrapped"
+                    if r[1] == "RecursionError" and any(f.startswith(("_ast_util.py:", "pyparser.py:visit", "pyparser.py:_")) or
+                                                        f.startswith("pyparser.py:") and "visit" in f for f in r[3]) \
+                            and not any(f.endswith(":parse") for f in r[3][-2:]):
+                        site = "identifier-visitor-recursionerror"
+                    if r[1] == "timeout":
+                        site = "lexer-does-not-finish"
+                    bad.append((site, {"input": src if len(src) < 400 else src[:200] + "..." + src[-100:], "construct": cname,
+                                       "python": sname, "api": api, "cpython_raises": cls, "length": len(src)},
+                                "%s raised a raw %s: %s (innermost frames: %s)" % (api, r[1], r[2], ", ".join(r[3][-3:]))))
+    # literal text holding a lone surrogate is ordinary text
+    for src in ("a\ud800b", "\udfff\n% if True:\nx\udc00\n% endif\n"):
+        n += 1
+        want = src if src.startswith("a") else "\udfff\nx\udc00\n"
+        r, to = timed(lambda: Template(src).render_unicode())
+        if to == "skipped":
+            break
+        if to or r != want:
+            bad.append(("surrogate-in-text-altered", {"input": src}, "rendered %r" % (r,)))
+    return bad, n, hist, outcomes
+
+
 def canonical_preprocessor_oracle():
     """every canonical document with every preprocessor configuration along every route -> [(site, case, detail)]"""
     bad = []
@@ -1854,6 +1975,15 @@ def run(ctx):
             for site, src, detail in canonical_oracle():
                 VIOL.insert(0, (site, src, detail, "oracle.render-canonical"))
             st_c["cases"] += len(CANONICAL)
+            hb, hn, hhist, hout = hostile_python_oracle()
+            per = {}
+            for site, case, detail in hb:
+                per[site] = per.get(site, 0) + 1
+                if per[site] <= 4:
+                    VIOL.append((site, case, detail, "oracle.hostile-python"))
+            ctx.stream("oracle.hostile-python", "oracle")["cases"] += hn
+            for k_, v_ in list(hhist.items()) + list(hout.items()) + [("oracle:" + s_, c_) for s_, c_ in per.items()]:
+                ctx.branch(k_, v_)
             cpp = canonical_preprocessor_oracle()
             for site, case, detail in reversed(cpp[:12]):
                 VIOL.insert(0, (site, case, detail, "oracle.preprocessor"))
@@ -1936,6 +2066,13 @@ def replay(ctx, data):
         return False
     SLOW.value = 0
     DEADLINE.value = 0.0
+    if isinstance(case, dict) and "construct" in case:
+        bad, _, _, _ = hostile_python_oracle()
+        hits = [b_ for b_ in bad if b_[1].get("construct") == case["construct"] and b_[1].get("python") == case["python"]
+                and b_[1].get("api") == case["api"]]
+        for site, c_, detail in hits:
+            print("oracle:", site, "|", detail[:300])
+        return not hits
     if isinstance(case, dict) and "preprocessor" in case:
         ps = dict(PREPROCESSORS)[case["preprocessor"]]
         bad, to = with_tmp(lambda tmp: timed(preprocessor_oracle, s, case["preprocessor"], ps, tmp))
